@@ -392,11 +392,42 @@ def statistics(res):
              ("uniform_int", StatDist(StatDistType.UNIFORM_INT, UniformParameters(min_val=1, max_val=5)), 1, 5),
              ("truncnormal", StatDist(StatDistType.TRUNCNORMAL, NormalParameters(loc=2.0, scale=1.0, min_val=0.5, max_val=6.0)), 0.5, 6.0),
              ("gamma", StatDist(StatDistType.GAMMA, GammaParameters(shape=2.0, scale=1.0)), 0.0, float("inf"))]
+    import math
+    # truncated normals with scale != 1 (clip points are given in hours, not in standard deviations), narrow and wide
+    for loc, scale, lo, hi in [(1.25, 2.0, 0.5, 2.0), (3.0, 0.5, 2.0, 5.0), (2.0, 3.0, 0.0, 10.0), (1.0, 0.25, 0.5, 1.2)]:
+        dists.append((f"truncnormal(loc={loc},scale={scale},[{lo},{hi}])",
+                      StatDist(StatDistType.TRUNCNORMAL, NormalParameters(loc=loc, scale=scale, min_val=lo, max_val=hi)), lo, hi))
+    def phi(x):
+        return math.exp(-x * x / 2) / math.sqrt(2 * math.pi)
+    def Phi(x):
+        return 0.5 * (1 + math.erf(x / math.sqrt(2)))
     for name, d, lo, hi in dists:
-        xs = d.draw(g, size=200)
+        xs = d.draw(g, size=2000)
         res.evaluations += 1
         if not all(lo <= x <= hi for x in xs):
-            res.violation("dist.support", f"{name}: a drawn repair time lies outside [{lo}, {hi}]", {"kind": "dist", "name": name})
+            bad = [float(x) for x in xs if not lo <= x <= hi]
+            res.violation("dist.support", f"{name}: {len(bad)} of 2000 drawn repair times lie outside [{lo}, {hi}] (e.g. {bad[0]})", {"kind": "dist", "name": name})
+        if name.startswith("truncnormal"):
+            # the sample mean against the mean of the truncated normal computed independently (erf), 6 sigma
+            pr = d.parameters
+            a, b = (pr.min_val - pr.loc) / pr.scale, (pr.max_val - pr.loc) / pr.scale
+            Z = Phi(b) - Phi(a)
+            mean = pr.loc + pr.scale * (phi(a) - phi(b)) / Z
+            var = pr.scale ** 2 * (1 + (a * phi(a) - b * phi(b)) / Z - ((phi(a) - phi(b)) / Z) ** 2)
+            m = float(np.mean(xs))
+            if abs(m - mean) > 6 * math.sqrt(var / len(xs)) + 1e-9:
+                res.violation("dist.mean", f"{name}: mean of 2000 draws {m:.4f}, mean of the configured truncated normal {mean:.4f} (sd of the mean {math.sqrt(var / len(xs)):.4f})", {"kind": "dist", "name": name})
+    # drawn through a component: the repair time of a failing line lies in the configured support
+    from relsad.network.components import Line
+    b1, b2 = Bus("Bs1"), Bus("Bs2")
+    ln = Line("Ls", b1, b2, r=0.1, x=0.1, repair_time_dist=StatDist(StatDistType.TRUNCNORMAL, NormalParameters(loc=1.25, scale=2.0, min_val=0.5, max_val=2.0)))
+    ln.add_random_instance(g)
+    for _ in range(300):
+        t = ln.draw_repair_time(Time(1, TimeUnit.HOUR)).get_hours()
+        res.evaluations += 1
+        if not 0.5 <= t <= 2.0:
+            res.violation("dist.support-line", f"Line.draw_repair_time returned {t} h, configured truncated normal has support [0.5, 2.0] h", {"kind": "dist", "name": "line"})
+            break
     # frequency: N steps of 1 h at rate r: expected N*r/8760.5; 5 sigma
     for rate in (200.0, 2000.0):
         b = Bus("Bf", fail_rate_per_year=rate, repair_time_dist=StatDist(StatDistType.UNIFORM_FLOAT, UniformParameters(0.0, 0.0)))
@@ -441,7 +472,15 @@ def search(res):
 
 def replay(obj):
     case = obj.get("case")
-    if case is None or case.get("kind") in ("dist", "freq"):
+    if case is not None and case.get("kind") in ("dist", "freq"):
+        # re-run the statistical monitors with the recorded seed against the current code
+        from .common import Result
+        r = Result(PROP, obj.get("tier", "quick"), int(obj.get("seed", 0)))
+        statistics(r)
+        for v in r.violations:
+            print("FAILS:", v["key"], v["what"])
+        return 1 if r.violations else 0
+    if case is None:
         print("no replayable input:", obj.get("what"), obj.get("broken_proof_obligations"), obj.get("broken_correspondence", [])[:2])
         return 1
     h = handler(case)
